@@ -1,5 +1,6 @@
 import VermouthModel.Proto
 import VermouthModel.C16
+import VermouthModel.C16_Format
 import Generated.C16Layout
 open Proto C16
 
@@ -11,6 +12,9 @@ Protocol of driver_c16 (layouts come from Generated.C16Layout):
   growrite <system>                        -> ok [ xLINE ... ]   (atom lines only)
   growritep <precision> <system>           -> ok [ xLINE ... ]   (write_gro(precision=...))
   groread  [ xEXCL ... ] <ignh> [ xLINE ... ] -> ok [ atom ... ]            | err <name>
+
+  fmtfield xSPEC <val>                     -> ok xTEXT | err valueerror|notimplemented|unmodelled
+                                              (TruncFormatter.format_field; val = [ 0 int ] | [ 1 xSTR ] | [ 2 scaled ])
 
   system = [ mol ... ];  mol = [ [ atom ... ] [ [ u v ] ... ] ]
   atom   = [ key atomid name altloc resname chain resid icode x y z occ temp element ]  ('-' = None)
@@ -77,6 +81,13 @@ def dedupSorted : List (Nat × Nat × Nat) → List (Nat × Nat × Nat)
 def canonBonds (bs : List (Nat × Nat × Nat)) : List (Nat × Nat × Nat) :=
   dedupSorted ((bs.map fun (m, i, j) => (m, min i j, max i j)).mergeSort bondLe)
 
+def valOf (t : Tok) : Option Val := do
+  match ← t.list? with
+  | [Tok.int 0, i] => pure (.int (← i.int?))
+  | [Tok.int 1, s] => pure (.str (← s.str?).toList)
+  | [Tok.int 2, k] => pure (.fix (← k.int?))
+  | _ => none
+
 def handle (_ : Unit) (toks : List Tok) : Unit × String :=
   let r : Option String :=
     match toks with
@@ -117,6 +128,12 @@ def handle (_ : Unit) (toks : List Tok) : Unit × String :=
           match atoms.mapM encGAtom with
           | none => pure "err scale"
           | some as => pure ("ok " ++ encList as)
+    | [Tok.str "fmtfield", sp, v] => do
+        let spec ← sp.str?
+        let val ← valOf v
+        match formatField spec.toList val with
+        | .ok r => pure ("ok " ++ encChars r)
+        | .error e => pure ("err " ++ e.toString)
     | _ => none
   ((), r.getD "bad-op")
 
